@@ -440,10 +440,21 @@ func (w *World) BuildReq(e Event) Req {
 	default:
 		panic("BuildReq: unknown act " + e.Act)
 	}
+	if w.In.Cfg.JSON {
+		// API mode: the body is JSON; the return target is only honoured from the query string
+		if v, ok := form["redir"]; ok {
+			delete(form, "redir")
+			sep := "?"
+			if strings.Contains(rq.Path, "?") {
+				sep = "&"
+			}
+			rq.Path += sep + "redir=" + url.QueryEscape(v)
+		}
+	}
 	if rq.Method != "GET" {
 		rq.Form = form
 	}
-	if w.In.Cfg.JSON && rq.Method == "GET" && strings.Contains(rq.Path, "?") && (e.Act == "ConfirmGet" || e.Act == "EmailVerifyEnd") {
+	if w.In.Cfg.JSON && rq.Method == "GET" && (e.Act == "ConfirmGet" || e.Act == "EmailVerifyEnd") {
 		// API mode: mail routes are POST with the token in the JSON body
 		u, _ := url.Parse(rq.Path)
 		rq.Method, rq.Path = "POST", u.Path
